@@ -153,12 +153,14 @@ pub struct Spec {
     pub scen: Scen,
     pub drop: DropV,
     pub cancel: Option<CancelSpec>,
+    /// The n-th `UdpSender::poll_send` call of the run (any socket) returns Pending once
+    pub send_block: Option<u64>,
     pub devs: Devs,
 }
 
 impl Spec {
     pub fn new(scen: Scen) -> Self {
-        Self { scen, drop: DropV::None, cancel: None, devs: vec![] }
+        Self { scen, drop: DropV::None, cancel: None, send_block: None, devs: vec![] }
     }
     pub fn to_json(&self) -> Value {
         json!({
@@ -166,6 +168,7 @@ impl Spec {
             "scenario": self.scen.name(),
             "drop": self.drop.to_json(),
             "cancel": self.cancel.as_ref().map(|c| c.to_json()),
+            "send_block": self.send_block,
             "devs": self.devs,
         })
     }
@@ -174,6 +177,7 @@ impl Spec {
             scen: Scen::parse(v["scenario"].as_str()?)?,
             drop: DropV::from_json(&v["drop"]).unwrap_or(DropV::None),
             cancel: CancelSpec::from_json(&v["cancel"]),
+            send_block: v["send_block"].as_u64(),
             devs: v["devs"]
                 .as_array()
                 .map(|a| a.iter().map(|x| (x[0].as_u64().unwrap_or(0), x[1].as_u64().unwrap_or(0) as u16)).collect())
@@ -184,6 +188,9 @@ impl Spec {
         let mut s = self.scen.name().to_string();
         if self.drop != DropV::None {
             s.push_str(&format!("/{:?}", self.drop));
+        }
+        if let Some(b) = self.send_block {
+            s.push_str(&format!("/send-not-writable@{b}"));
         }
         if let Some(c) = &self.cancel {
             s.push_str(&format!("/cancel[{}#{} n={} {:?}]", c.site, c.occ.map_or("*".into(), |x| x.to_string()), c.n, c.mode));
@@ -610,7 +617,7 @@ async fn s1_server_conn(o: Arc<Obs>, inc: Incoming, ep: Endpoint) {
     let conn = match aw!(o, "srv.handshake", inc.into_future()) {
         Ok(c) => c,
         Err(e) => {
-            ep.close(VarInt::from_u32(0), b"");
+            ep.close(VarInt::from_u32(77), b"ep");
             return o.fail("O1:accept", format!("incoming.await: {}", cerr(&e)));
         }
     };
@@ -730,7 +737,7 @@ async fn s1_server_conn(o: Arc<Obs>, inc: Incoming, ep: Endpoint) {
         }
         drop(c);
     }
-    ep.close(VarInt::from_u32(0), b"");
+    ep.close(VarInt::from_u32(77), b"ep");
     drop(ep);
     o.stage("done");
 }
@@ -807,7 +814,7 @@ async fn s2_server_conn(o: Arc<Obs>, inc: Incoming, ep: Endpoint) {
     let conn = match aw!(o, "srv.handshake", inc.into_future()) {
         Ok(c) => c,
         Err(e) => {
-            ep.close(VarInt::from_u32(0), b"");
+            ep.close(VarInt::from_u32(77), b"ep");
             return o.fail("O1:accept", cerr(&e));
         }
     };
@@ -877,7 +884,7 @@ async fn s2_server_conn(o: Arc<Obs>, inc: Incoming, ep: Endpoint) {
         o.fail("O1:closed", format!("server closed() = {}", cerr(&e)));
     }
     drop(conn);
-    ep.close(VarInt::from_u32(0), b"");
+    ep.close(VarInt::from_u32(77), b"ep");
     drop(ep);
     o.stage("done");
 }
@@ -1005,7 +1012,7 @@ async fn s3_server_conn(o: Arc<Obs>, inc: Incoming, ep: Endpoint) {
     let conn = match aw!(o, "srv.handshake", inc.into_future()) {
         Ok(c) => c,
         Err(e) => {
-            ep.close(VarInt::from_u32(0), b"");
+            ep.close(VarInt::from_u32(77), b"ep");
             return o.fail("O1:accept", cerr(&e));
         }
     };
@@ -1080,7 +1087,7 @@ async fn s3_server_conn(o: Arc<Obs>, inc: Incoming, ep: Endpoint) {
         o.fail("O1:closed", format!("server closed() = {}", cerr(&e)));
     }
     drop(conn);
-    ep.close(VarInt::from_u32(0), b"");
+    ep.close(VarInt::from_u32(77), b"ep");
     drop(ep);
     o.stage("done");
 }
@@ -1095,7 +1102,7 @@ async fn accept_loop(o: Arc<Obs>, ep: Endpoint) {
         let Some(inc) = inc else { break };
         if o.drop == DropV::IncomingDropped && n == 0 {
             drop(inc);
-            ep.close(VarInt::from_u32(0), b"");
+            ep.close(VarInt::from_u32(77), b"ep");
             n += 1;
             continue;
         }
@@ -1128,6 +1135,8 @@ pub struct Outcome {
     pub vtime: Duration,
     pub stale_wakes: u64,
     pub tasks: usize,
+    pub send_calls: u64,
+    pub send_blocked: u64,
     pub dump: Option<String>,
 }
 
@@ -1172,6 +1181,7 @@ pub fn run_spec(base: Instant, spec: &Spec, keep_trace: bool) -> Outcome {
             Scen::S3 => world.spawn_app("cli.main", s3_client(obs.clone(), cep, cc, saddr)),
         };
         drop(rt);
+        world.block_send_at(spec.send_block);
         let devs: BTreeMap<u64, u16> = spec.devs.iter().copied().collect();
         world.run(&devs, &LIMITS)
     };
@@ -1297,6 +1307,7 @@ pub fn run_spec(base: Instant, spec: &Spec, keep_trace: bool) -> Outcome {
                 crate::exec::Ev::Deliver { seq, dst, len, at_us, .. } => s.push_str(&format!("\n  t={at_us}us deliver #{seq} -> {dst} ({len} B)\n")),
                 crate::exec::Ev::NoSocket { seq } => s.push_str(&format!("  datagram #{seq}: destination socket gone\n")),
                 crate::exec::Ev::Timer { id, at_us } => s.push_str(&format!("\n  t={at_us}us timer {id} fires\n")),
+                crate::exec::Ev::Writable => s.push_str("\n  socket writable again\n"),
                 crate::exec::Ev::Spawn { id } => s.push_str(&format!("  spawn {} {}\n", id, tasks[*id].name)),
             }
         }
@@ -1315,6 +1326,8 @@ pub fn run_spec(base: Instant, spec: &Spec, keep_trace: bool) -> Outcome {
         vtime: world.vnow(),
         stale_wakes: world.stale_wakes.load(std::sync::atomic::Ordering::Relaxed),
         tasks: tasks.len(),
+        send_calls: world.send_calls().0,
+        send_blocked: world.send_calls().1,
         stop: stop.clone(),
         dump,
     };
